@@ -10,7 +10,7 @@ import json
 import random
 
 from .. import common as C
-from .. import gen, l1
+from .. import gen, l1, vmv
 
 PID = "C11"
 
@@ -41,6 +41,10 @@ def run(tier, replay=None):
         rep.violation(("spelling-alias " if twice else "") + f"{d['path']} {d['id']}",
                       f"{d['path']}: project {d['id']}: semantics prescribes {d['exp_out']} ({d['exp_status']}); real binary {d['obs_out']} exit={d['obs_exit']} {d['obs_fclass']}",
                       dict(case=c["id"], verdict=d, files=c["files"], stderr=[o["err"] for o in c["obs"]]))
+    # the compiled projects on the value machine MSVMV (module_entry / export tables / split_lookup_store):
+    # per-instruction trace validation of the interpreter and translation validation against MSLang!RunProject
+    vres = vmv.stage(binary, work / "vmv", cases, 500 if tier == "quick" else 5000, rnd)
+    vcov = vmv.report(rep, vres, "module project")
     # trace validation of the loader
     traces = []
     for c in cases:
@@ -75,7 +79,7 @@ def run(tier, replay=None):
             rep.violation(("spelling-alias " if alias else "") + f"loader-trace {t['id']}",
                           f"module events of {t['id']} are not a behaviour of MSModules / break its invariants: {info}",
                           dict(case=cid, files=c["files"], model=info, events=t["events"]))
-    rep.coverage = dict(
+    rep.coverage = dict(**vcov, 
         states=st["states"] + g1.distinct + tv.distinct, transitions=st["transitions"] + g1.generated + tv.generated,
         traces_validated_against_impl=len(traces), traces_accepted=len(acc), programs=len(cases), executions=2 * len(cases),
         evaluations=len(cases), distinct_nontrivial=sum(1 for c in cases if len(c["edges"]) >= 2),
